@@ -28,7 +28,11 @@ pub fn money_regex_parser(config: &SmartCalcConfig, tokinizer: &mut Tokinizer, g
 
     for re in group_item.iter() {
         for capture in re.captures_iter(&tokinizer.data.to_owned()) {
-            let start = capture.get(0).unwrap().start();
+            /* The position of the first digit decides, a sign in front of it (5-0xAF) is not part of the literal */
+            let start = match capture.name("PRICE") {
+                Some(price) => price.start() + price.as_str().find(|ch: char| ch.is_ascii_digit()).unwrap_or(0),
+                None => capture.get(0).unwrap().start()
+            };
             if based_numbers.iter().any(|(based_start, based_end)| start >= *based_start && start < *based_end) {
                 continue;
             }
